@@ -207,6 +207,13 @@ pub fn gen_driver(prop: &str, rng: &mut Rng, sh: &mut Shards, out: &str, thoroug
                         p.items.push(Item::Ins(Ins::Mov { w: 8, dst: Opnd::Mem { seg: "", base: "", index: "", disp: k2 * 5, has_disp: true }, src: Opnd::Imm(0xA0 + k2) }));
                     }
                     p.items.push(Item::Ins(Ins::Print { what: PrintWhat::DsSpan(*rng.pick(&[0u32, 3, 14, 15, 16, 17, 31, 40])) }));
+                    // DS-relative spans whose length needs more than 16 bits: with a high DS they leave the 1 MB space and
+                    // must be reported, with a low DS a long dump (up to 64 KiB + 6 bytes) is printed
+                    if seg >= 0xF000 {
+                        p.items.push(Item::Ins(Ins::Print { what: PrintWhat::DsSpan(*rng.pick(&[0x10000u32, 0x10005, 0x1FFFF, 70000, 0xFFFFF, 0x20003])) }));
+                    } else if seg == 0x0FFF || seg == 0x1000 {
+                        p.items.push(Item::Ins(Ins::Print { what: PrintWhat::DsSpan(*rng.pick(&[600u32, 1023, 1500, 0x10005])) }));
+                    }
                     let top = 0xFFFFFu32;
                     let a = top - rng.below(40) as u32;
                     p.items.push(Item::Ins(Ins::Print { what: PrintWhat::Range(a, top) }));
